@@ -728,6 +728,7 @@ func run(c *core.Ctx) {
 	}
 	k := gen.DrawKnobs(t)
 	k.ValueForms = false // a decoder's wire peer encodes what it holds; value forms encode identically
+	k.Paragraphs = t.Bool(1, 2)
 	g := gen.New(t, k)
 	e := entries[t.Draw(len(entries))]
 	var msg []byte
